@@ -15,8 +15,8 @@ import (
 )
 
 func init() {
-	props["C15"] = &propDef{run: runC15, explanation: "Partial (structural agreement of signer and verifier; not the cryptography). Decided statically: (X1) the signer's curve→hash table and the verifier's curve-name→(curve, coordinate width, hash) table agree row by row, every width equals ⌈bit size/8⌉ of the curve named in the same row (specification table P-256:256, P-384:384, P-521:521, secp256k1:256), and the signer pads r and s to ⌈BitSize/8⌉ computed from the key's own curve; (X2) one signingInput function produces the signing input for both signing and verification from (headers, payload); compact serialisation and parsing use the single encoding base64.RawURLEncoding, the separator '.', and exactly three parts; (G1) the verifier slices the signature only behind len(sig) == 2·width, tests the boolean results of ecdsa.Verify / ed25519.Verify, guards the Ed25519 key size, rejects empty signature / payload segments, and SignPayload refuses a signer without an alg header. Not decided: 'verifies iff produced by the matching key over the same bytes' (cryptography,  go-jose key decoding). (K2) JOSE headers on the parse / verify paths are decoded with the go-jose decoder, which refuses duplicate member names (read from the library source): the verified signing input is rebuilt from the parsed header, so anything the decoder drops would be unsigned header content. The C16 rules (JWK coordinate width, padding helpers, strict reading) run inside this check as well. SerializeCompact writes each segment as the unpadded base64url text of its part. A supplied detached payload is the payload on every accepting path; NewJWS stores header maps made for that JWS; the compact form is three dot-separated segments however assembled. NewJWS hands sign the JOSE headers it stores; ed25519.Verify receives the whole signature parameter. VerifySignature accepts only behind Verify; the signer emits ecdsa.Sign's r and s as returned; Signature() returns a copy. The signing input is checked in concatenation form per alternative."}
-	props["C16"] = &propDef{run: runC16, explanation: "Partial (thin). Decided statically: (K1) secp256k1 JWK marshalling pads X and Y (public and private form) through one padding helper with the constant 32 = ⌈256/8⌉, and the helper left-pads to exactly the requested length; (G1) unmarshalling a secp256k1 JWK succeeds only with X and Y present, each of length curveSize(S256) and the point on the curve (IsOnCurve true edge); curveSize is ⌈BitSize/8⌉; (T1) GetPublicKeyJWK's type switch admits exactly ed25519.PublicKey, *rsa.PublicKey and *ecdsa.PublicKey, marks a key as (EC, secp256k1) exactly when its curve is btcec.S256(), and rejects other types; isSecp256k1 compares both kty and crv. Not decided: the NIST and Ed25519 encodings (delegated to go-jose) and round-trip equality. (G2) closed rejection set of the secp256k1 reader: it says no only for a missing coordinate, a coordinate / private value of the wrong width, or a point off the curve (conditions inside helper predicates are followed). (K2) every (*big.Int).Bytes() flows only into a right-aligning sink; (G3) byteBuffer.data is exactly the base64url decoder's result. (*JWK).UnmarshalJSON stores the decoded key-type and curve labels before every accepting exit. The secp256k1 encoder writes the registered key-type and curve names; key conversion functions keep no state between calls. EC keys are built only in the checked reader's call tree; every decode into go-jose's JSONWebKey sits inside the strict reader; jws.JWK.Validate has the closed set of refusals; C15.X1's curve tables run here. JWK copies are member for member; C19.N on the JWK reader's functions."}
+	props["C15"] = &propDef{run: runC15, explanation: "Partial (structural agreement of signer and verifier; not the cryptography). Decided statically: (X1) the signer's curve→hash table and the verifier's curve-name→(curve, coordinate width, hash) table agree row by row, every width equals ⌈bit size/8⌉ of the curve named in the same row (specification table P-256:256, P-384:384, P-521:521, secp256k1:256), and the signer pads r and s to ⌈BitSize/8⌉ computed from the key's own curve; (X2) one signingInput function produces the signing input for both signing and verification from (headers, payload); compact serialisation and parsing use the single encoding base64.RawURLEncoding, the separator '.', and exactly three parts; (G1) the verifier slices the signature only behind len(sig) == 2·width, tests the boolean results of ecdsa.Verify / ed25519.Verify, guards the Ed25519 key size, rejects empty signature / payload segments, and SignPayload refuses a signer without an alg header. Not decided: 'verifies iff produced by the matching key over the same bytes' (cryptography,  go-jose key decoding). (K2) JOSE headers on the parse / verify paths are decoded with the go-jose decoder, which refuses duplicate member names (read from the library source): the verified signing input is rebuilt from the parsed header, so anything the decoder drops would be unsigned header content. The C16 rules (JWK coordinate width, padding helpers, strict reading) run inside this check as well. SerializeCompact writes each segment as the unpadded base64url text of its part. A supplied detached payload is the payload on every accepting path; NewJWS stores header maps made for that JWS; the compact form is three dot-separated segments however assembled. NewJWS hands sign the JOSE headers it stores; ed25519.Verify receives the whole signature parameter. VerifySignature accepts only behind Verify; the signer emits ecdsa.Sign's r and s as returned; Signature() returns a copy. The signing input is checked in concatenation form per alternative. The compact text is handed on as given."}
+	props["C16"] = &propDef{run: runC16, explanation: "Partial (thin). Decided statically: (K1) secp256k1 JWK marshalling pads X and Y (public and private form) through one padding helper with the constant 32 = ⌈256/8⌉, and the helper left-pads to exactly the requested length; (G1) unmarshalling a secp256k1 JWK succeeds only with X and Y present, each of length curveSize(S256) and the point on the curve (IsOnCurve true edge); curveSize is ⌈BitSize/8⌉; (T1) GetPublicKeyJWK's type switch admits exactly ed25519.PublicKey, *rsa.PublicKey and *ecdsa.PublicKey, marks a key as (EC, secp256k1) exactly when its curve is btcec.S256(), and rejects other types; isSecp256k1 compares both kty and crv. Not decided: the NIST and Ed25519 encodings (delegated to go-jose) and round-trip equality. (G2) closed rejection set of the secp256k1 reader: it says no only for a missing coordinate, a coordinate / private value of the wrong width, or a point off the curve (conditions inside helper predicates are followed). (K2) every (*big.Int).Bytes() flows only into a right-aligning sink; (G3) byteBuffer.data is exactly the base64url decoder's result. (*JWK).UnmarshalJSON stores the decoded key-type and curve labels before every accepting exit. The secp256k1 encoder writes the registered key-type and curve names; key conversion functions keep no state between calls. EC keys are built only in the checked reader's call tree; every decode into go-jose's JSONWebKey sits inside the strict reader; jws.JWK.Validate has the closed set of refusals; C15.X1's curve tables run here. JWK copies are member for member; C19.N on the JWK reader's functions. JWK texts for the strict reader are written by the JSON encoder; the receiver of UnmarshalJSON is untouched on failure."}
 }
 
 var curveBits = map[string]int{"crypto/elliptic.P256()": 256, "crypto/elliptic.P384()": 384, "crypto/elliptic.P521()": 521, "github.com/btcsuite/btcd/btcec/v2.S256()": 256}
@@ -140,6 +140,25 @@ func runC15(c *Ctx) {
 		}
 		c.Check("C15.X2", "jwsutil:single-alphabet", n >= 8 && bad == 0, 0, fmt.Sprintf("%d base64 operations in jwsutil, %d not using RawURLEncoding", n, bad))
 	}
+	// the compact text is split as it was given: ParseJWS and VerifyJWS hand the caller's string on (a text tidied first
+	// — white space trimmed — is a malformed compact form accepted)
+	{
+		pj, vj, pcf := c.Fn("jwsutil", "ParseJWS"), c.Fn("jwsutil", "VerifyJWS"), c.Fn("jwsutil", "parseCompacted")
+		if pj == nil || vj == nil || pcf == nil {
+			c.Unresolved("C15.X2", "jwsutil.ParseJWS / VerifyJWS / parseCompacted")
+		} else {
+			n, okA := 0, true
+			for _, pr := range [][2]*ssa.Function{{pj, pcf}, {vj, pj}} {
+				for _, cl := range callsTo(pr[0], pr[1]) {
+					n++
+					if c.Path(cl.Call.Args[0], nil) != "$0" {
+						okA = false
+					}
+				}
+			}
+			c.Check("C15.X2", "compact-text:handed-on-as-given", n >= 2 && okA, pj.Pos(), fmt.Sprintf("ParseJWS -> parseCompacted and VerifyJWS -> ParseJWS receive the caller's text itself (%d call(s))", n))
+		}
+	}
 	// (decoded parts are named after the decoder call, also when a small unexported helper wraps it)
 	c.inlineHelpers = true
 	if pc := c.Fn("jwsutil", "parseCompacted"); pc != nil {
@@ -152,7 +171,12 @@ func runC15(c *Ctx) {
 			// a detached payload, when the caller supplies one, IS the payload: every accepting exit that hands back
 			// anything else lies on the "none supplied" side of the test — whatever the payload segment holds
 			{
-				isDet := func(s string) bool { return strings.HasPrefix(s, "len($1.detachedPayload") }
+				// (the detached payload: a member of the options the function is handed, or the bytes themselves)
+				detP := "$1.detachedPayload"
+				if len(pp.Params) == 2 && isBytesT(pp.Params[1].Type()) {
+					detP = c.Path(pp.Params[1], nil)
+				}
+				isDet := func(s string) bool { return s == "len("+detP+")" }
 				okD, w, _ := c.Guard(pp, nil, anyOf("no detached payload supplied",
 					cmpReject("len(detachedPayload) > 0 leads to the detached payload", token.GTR, isDet, pathIs("0")),
 					cmpReject("len(detachedPayload) != 0 leads to the detached payload", token.NEQ, isDet, pathIs("0")),
@@ -164,13 +188,13 @@ func runC15(c *Ctx) {
 						if phi, isPhi := v.(*ssa.Phi); isPhi {
 							for i, e := range phi.Edges {
 								pred := phi.Block().Preds[i]
-								if c.Path(e, nil) != "$1.detachedPayload" && in == pred.Instrs[len(pred.Instrs)-1] {
+								if c.Path(e, nil) != detP && in == pred.Instrs[len(pred.Instrs)-1] {
 									return true
 								}
 							}
 							continue
 						}
-						if in == ssa.Instruction(r) && c.Path(v, nil) != "$1.detachedPayload" {
+						if in == ssa.Instruction(r) && c.Path(v, nil) != detP {
 							return true
 						}
 					}
@@ -179,7 +203,9 @@ func runC15(c *Ctx) {
 				c.Check("C15.G1", "parseCompactedPayload:detached-payload-wins", okD, pp.Pos(), "the embedded payload segment is used only when no detached payload was supplied", w...)
 			}
 			c.CheckGuard("C15.G1", "parseCompactedPayload:empty-payload-rejected", pp, nil, anyOf("detached payload supplied, or decoded payload non-empty",
-				cmpAccept("len(detachedPayload) > 0", token.GTR, func(s string) bool { return strings.HasPrefix(s, "len($1.detachedPayload") }, pathIs("0")),
+				cmpAccept("len(detachedPayload) > 0", token.GTR, func(s string) bool {
+					return s == "len($1.detachedPayload)" || (len(pp.Params) == 2 && isBytesT(pp.Params[1].Type()) && s == "len("+c.Path(pp.Params[1], nil)+")")
+				}, pathIs("0")),
 				cmpReject("len(payload) == 0 rejected", token.EQL, func(s string) bool { return strings.HasPrefix(s, "len((*encoding/base64.Encoding).DecodeString(") }, pathIs("0"))))
 		}
 	}
@@ -680,6 +706,56 @@ func runC16(c *Ctx) {
 			})
 		}
 		c.Check("C16.G1", "jwk-texts-read-by-the-strict-reader-only", uj != nil && n > 0 && len(bad) == 0, 0, fmt.Sprintf("%d decode(s) into go-jose's JSONWebKey in the module, all inside (*jwsutil.JWK).UnmarshalJSON", n), bad...)
+	}
+	// a refused text leaves the key it was read into as it was: no store into the receiver of (*JWK).UnmarshalJSON is
+	// followed by a failing exit (labels written before the key is validated stay behind when validation fails: the old
+	// key under the new curve name)
+	if uj := c.Method("jwsutil", "JWK", "UnmarshalJSON"); uj != nil {
+		var bad []string
+		n := 0
+		forEachInstr(uj, func(in ssa.Instruction) {
+			st, ok := in.(*ssa.Store)
+			if !ok || rootOf(st.Addr) != ssa.Value(uj.Params[0]) {
+				return
+			}
+			n++
+			for b := range reach(st.Block(), nil) {
+				r, isR := b.Instrs[len(b.Instrs)-1].(*ssa.Return)
+				if !isR || maySucceed(r) {
+					continue
+				}
+				// (an exit of the store's own block that comes before the store is not "after" it)
+				if b == st.Block() {
+					continue
+				}
+				bad = append(bad, fmt.Sprintf("%s: the receiver is written at %s and the function can still fail at %s", c.pos(st.Pos()), c.pos(st.Pos()), c.pos(r.Pos())))
+			}
+		})
+		c.Check("C16.G1", "UnmarshalJSON:receiver-untouched-on-failure", n >= 2 && len(bad) == 0, uj.Pos(), fmt.Sprintf("%d store(s) into the receiver, none followed by a failing exit", n), bad...)
+	} else {
+		c.Unresolved("C16.G1", "(*jwsutil.JWK).UnmarshalJSON")
+	}
+	// a key that goes from the public JWK type to the strict reader goes as JSON written by the JSON encoder: every text
+	// handed to (*jwsutil.JWK).UnmarshalJSON inside the module is the caller's own bytes or the result of json.Marshal —
+	// a text assembled by hand (Sprintf with %s) lets a quote inside a member be read as structure
+	{
+		n := 0
+		var bad []string
+		uj := c.Method("jwsutil", "JWK", "UnmarshalJSON")
+		for _, f := range c.Funcs {
+			if uj == nil || !strings.HasPrefix(pkgPathOf(f), modPkg) || f.Blocks == nil {
+				continue
+			}
+			for _, cl := range callsTo(f, uj) {
+				n++
+				p := c.Path(cl.Call.Args[1], nil)
+				if strings.HasPrefix(p, "$") || strings.HasPrefix(p, "encoding/json.Marshal(") || strings.HasPrefix(p, "github.com/go-jose/go-jose/v3/json.Marshal(") {
+					continue
+				}
+				bad = append(bad, fmt.Sprintf("%s: %s hands the strict reader %s", c.pos(cl.Pos()), short(f.String()), p))
+			}
+		}
+		c.Check("C16.G1", "jwk-texts-written-by-the-json-encoder", uj != nil && n >= 2 && len(bad) == 0, 0, fmt.Sprintf("%d text(s) handed to (*jwsutil.JWK).UnmarshalJSON in the module, each the caller's bytes or json.Marshal's result", n), bad...)
 	}
 	// a JWK rebuilt from another JWK (the document's key handed to the Ed25519 reader, a key copied between the two JWK
 	// types) is copied member for member: kty from kty, crv from crv, x from x, y from y — a label supplied by the copying
@@ -1883,4 +1959,14 @@ func (c *Ctx) strictHeaderDecoderRule() {
 		c.Check("C15.K2", "header-decoder:strict", n > 0 && bad == 0, 0, fmt.Sprintf("%d decode(s) of a JOSE header map on the parse / verify paths, all with the duplicate-refusing decoder", n))
 	}
 	c.Min("C15.K2", 2)
+}
+
+// isBytesT: the type is a slice of bytes.
+func isBytesT(t types.Type) bool {
+	sl, ok := t.Underlying().(*types.Slice)
+	if !ok {
+		return false
+	}
+	b, ok := sl.Elem().Underlying().(*types.Basic)
+	return ok && b.Kind() == types.Uint8
 }
